@@ -65,6 +65,19 @@ Proof.
 Qed.
 
 (* ---- the syscall ------------------------------------------------------------------------------------------ *)
+Lemma sys_done_kind s x m r p' ev : syscall s x m = SysDone r p' ev -> akind x = Rd \/ akind x = Wr.
+Proof.
+  unfold IoModel.syscall. destruct (akind x); auto; intros H; exfalso.
+  - destruct (kq _); discriminate.
+  - destruct (kst _); try discriminate. destruct m as [|[|e]]; discriminate.
+Qed.
+Lemma sysk_kind s x m r kn' ev : syscall s x m = SysK r kn' ev -> akind x = Ac \/ akind x = Co.
+Proof.
+  unfold IoModel.syscall. destruct (akind x); auto; intros H; exfalso.
+  - destruct (buf _); [destruct (wshut _)|destruct (_ && _)]; discriminate.
+  - destruct (wshut _); [discriminate|]. destruct (cap <=? _); [discriminate|]. destruct (_ && _); discriminate.
+Qed.
+
 Lemma sys_again s x m : syscall s x m = SysAgain -> ~ avail s x.
 Proof.
   unfold IoModel.syscall, IoModel.avail. destruct (akind x).
@@ -74,36 +87,74 @@ Proof.
   - destruct (wshut _) eqn:W; [discriminate|].
     destruct (cap <=? _) eqn:C; [|destruct (_ && _); discriminate].
     intros _ H. apply Nat.leb_le in C. lia.
+  - destruct (kq _) eqn:E; [|discriminate]. intros _ H. congruence.
+  - destruct (kst _) eqn:E; try discriminate.
+    + destruct m as [|[|e]]; discriminate.
+    + intros _ [H|[e H]]; discriminate.
+Qed.
+
+(* connect answered EINPROGRESS: the attempt is in progress, the wake condition of the caller does not hold yet *)
+Lemma sys_againk s x m kn' : syscall s x m = SysAgainK kn' ->
+  akind x = Co /\ kn' = upd (Kn s) (afd x) (k_start (Kn s (afd x)) CProg (an x) false).
+Proof.
+  unfold IoModel.syscall. destruct (akind x).
+  - destruct (buf _); [destruct (wshut _)|destruct (_ && _)]; discriminate.
+  - destruct (wshut _); [discriminate|]. destruct (cap <=? _); [discriminate|]. destruct (_ && _); discriminate.
+  - destruct (kq _); discriminate.
+  - destruct (kst _); try discriminate. destruct m as [|[|e]]; try discriminate. intros H. inversion H. auto.
+Qed.
+Lemma againk_not_avail s x m kn' s1 x' : syscall s x m = SysAgainK kn' -> Kn s1 = kn' ->
+  akind x' = akind x -> afd x' = afd x -> ~ avail s1 x'.
+Proof.
+  intros H HK Ek Ef. destruct (sys_againk _ _ _ _ H) as [K ->]. unfold IoModel.avail. rewrite Ek, K, Ef, HK, upd_eq. cbn.
+  intros [X|[e X]]; discriminate.
 Qed.
 
 Lemma inJ_inflight p : inJ p = true -> inflight p = true.
 Proof. destruct p; cbn; congruence. Qed.
 
-(* `avail` looks at the pipes only *)
-Lemma avail_ext s1 s2 y : P s1 = P s2 -> avail s1 y -> avail s2 y.
-Proof. unfold IoModel.avail. intros ->. auto. Qed.
+(* `avail` looks at the kernel object only *)
+Lemma avail_ext s1 s2 y : P s1 = P s2 -> Kn s1 = Kn s2 -> avail s1 y -> avail s2 y.
+Proof. unfold IoModel.avail. intros -> ->. auto. Qed.
+(* ... of a listener / connecting socket: at its own descriptor only *)
+Lemma avail_kupd s s1 f k' y : P s1 = P s -> Kn s1 = upd (Kn s) f k' -> afd y <> f -> avail s1 y -> avail s y.
+Proof. unfold IoModel.avail. intros -> -> N. rewrite upd_neq by exact N. auto. Qed.
+
+Lemma kst_enqueue kn l c g : kst (enqueue kn l c g) = kst (kn g).
+Proof. unfold enqueue. destruct (Nat.eq_dec g l) as [->|N]; [rewrite upd_eq; reflexivity | rewrite upd_neq by exact N; reflexivity]. Qed.
+Lemma kq_enqueue kn l c g : kq (enqueue kn l c g) <> [] -> kq (kn g) <> [] \/ q_edge kn l = Some g.
+Proof.
+  unfold enqueue, q_edge. destruct (Nat.eq_dec g l) as [->|N]; [|rewrite upd_neq by exact N; auto].
+  rewrite upd_eq. cbn. destruct (kq (kn l)); [right; reflexivity | left; discriminate].
+Qed.
 
 (* K3: a transfer changes the wake condition of another caller only together with an event for its descriptor *)
 Lemma avail_sys s x m r p' ev s1 y :
-  syscall s x m = SysDone r p' ev -> P s1 = upd (P s) (pipe_of peer (akind x) (afd x)) p' ->
+  syscall s x m = SysDone r p' ev -> P s1 = upd (P s) (pipe_of peer (akind x) (afd x)) p' -> Kn s1 = Kn s ->
   avail s1 y -> avail s y \/ ev = Some (afd y).
 Proof.
-  intros Hs HP Hav. unfold IoModel.avail in *. rewrite HP in Hav.
+  intros Hs HP HK Hav.
+  assert (D : (akind y = Ac \/ akind y = Co) \/ (akind y = Rd \/ akind y = Wr)) by (destruct (akind y); auto).
+  destruct D as [D|D].
+  { left. unfold IoModel.avail in *. rewrite HK in Hav. destruct D as [D|D]; rewrite D in *; exact Hav. }
+  pose proof (sys_done_kind _ _ _ _ _ _ Hs) as Dx.
+  unfold IoModel.avail in *. rewrite HP in Hav.
   set (p := pipe_of peer (akind x) (afd x)) in *.
-  destruct (Nat.eq_dec (pipe_of peer (akind y) (afd y)) p) as [E|N]; [|rewrite upd_neq in Hav by exact N; left; exact Hav].
+  destruct (Nat.eq_dec (pipe_of peer (akind y) (afd y)) p) as [E|N];
+    [|rewrite upd_neq in Hav by exact N; left; destruct D as [D|D]; rewrite D in *; exact Hav].
   rewrite E in *. rewrite upd_eq in Hav.
   unfold IoModel.syscall in Hs. fold p in Hs.
-  destruct (akind x) eqn:Kx.
+  destruct (akind x) eqn:Kx; [| |destruct Dx; discriminate|destruct Dx; discriminate].
   - (* x reads pipe p *)
     destruct (buf (P s p)) as [|b bs] eqn:Eb.
     + destruct (wshut (P s p)) eqn:W; [|discriminate]. inversion Hs; subst. cbn in Hav.
-      destruct (akind y); [left; right; reflexivity | left; exact Hav].
+      destruct D as [D|D]; rewrite D in *; [left; right; reflexivity | left; exact Hav].
     + rewrite <- Eb in Hs.
       destruct ((1 <=? m) && (m <=? an x) && (m <=? length (buf (P s p)))) eqn:G; [|discriminate].
       injection Hs as <- <- <-. cbn [buf wshut] in Hav.
       apply andb_prop in G. destruct G as [G G3]. apply andb_prop in G. destruct G as [G1 G2].
       apply Nat.leb_le in G1, G2, G3.
-      destruct (akind y) eqn:Ky.
+      destruct D as [Ky|Ky]; rewrite Ky in *.
       * left. destruct Hav as [Hav|Hav]; [left|right; exact Hav]. try rewrite Eb. discriminate.
       * rewrite skipn_length in Hav.
         destruct (cap <=? length (buf (P s p))) eqn:C.
@@ -112,25 +163,74 @@ Proof.
         -- left. apply Nat.leb_gt in C. rewrite Eb in C. exact C.
   - (* x writes pipe p *)
     destruct (wshut (P s p)) eqn:W.
-    + injection Hs as <- <- <-. left. destruct (akind y); [right; reflexivity | exact Hav].
+    + injection Hs as <- <- <-. left. destruct D as [D|D]; rewrite D in *; [right; reflexivity | exact Hav].
     + destruct (cap <=? length (buf (P s p))) eqn:C; [discriminate|].
       destruct (_ && _) eqn:G; [|discriminate]. inversion Hs; subst. clear Hs. cbn in Hav.
-      destruct (akind y) eqn:Ky.
+      destruct D as [Ky|Ky]; rewrite Ky in *.
       * destruct (buf (P s p)) as [|b bs] eqn:Eb.
         -- right. f_equal. unfold pipe_of in E. rewrite <- E. apply peer_inv.
         -- left. left. discriminate.
       * left. rewrite app_length in Hav. subst p. cbn [pipe_of] in *. lia.
 Qed.
 
+(* K5 / K6: an accept or connect call changes the wake condition of a caller on ANOTHER descriptor only together with
+   an event for that descriptor (connect completing at once: the listener's backlog) *)
+Lemma avail_sysk s x m r kn' ev s1 y :
+  syscall s x m = SysK r kn' ev -> P s1 = P s -> Kn s1 = kn' -> afd y <> afd x ->
+  avail s1 y -> avail s y \/ ev = Some (afd y).
+Proof.
+  intros Hs HP HK N Hav. unfold IoModel.avail in *. rewrite HP, HK in Hav. clear HK HP.
+  destruct (akind y) eqn:Ky; [left; exact Hav | left; exact Hav | |].
+  - (* y accepts on afd y *)
+    unfold IoModel.syscall in Hs. destruct (akind x).
+    + destruct (buf _); [destruct (wshut _)|destruct (_ && _)]; discriminate.
+    + destruct (wshut _); [discriminate|]. destruct (cap <=? _); [discriminate|]. destruct (_ && _); discriminate.
+    + destruct (kq (Kn s (afd x))); [discriminate|]. inversion Hs; subst. rewrite upd_neq in Hav by exact N. left; exact Hav.
+    + destruct (kst (Kn s (afd x))); [destruct m as [|[|e]]| | | |]; try discriminate; inversion Hs; subst; clear Hs;
+        try (rewrite upd_neq in Hav by exact N); try (left; exact Hav).
+      apply kq_enqueue in Hav. destruct Hav as [Hav|Hav]; [left|right; exact Hav]. rewrite upd_neq in Hav by exact N. exact Hav.
+  - (* y connects through afd y *)
+    unfold IoModel.syscall in Hs. destruct (akind x).
+    + destruct (buf _); [destruct (wshut _)|destruct (_ && _)]; discriminate.
+    + destruct (wshut _); [discriminate|]. destruct (cap <=? _); [discriminate|]. destruct (_ && _); discriminate.
+    + destruct (kq (Kn s (afd x))); [discriminate|]. inversion Hs; subst. rewrite upd_neq in Hav by exact N. left; exact Hav.
+    + destruct (kst (Kn s (afd x))); [destruct m as [|[|e]]| | | |]; try discriminate; inversion Hs; subst; clear Hs;
+        try rewrite kst_enqueue in Hav; try (rewrite upd_neq in Hav by exact N); left; exact Hav.
+Qed.
+
 (* K3: shutdown of the writing direction of pipe f *)
 Lemma avail_shut s f s1 y :
   P s1 = upd (P s) f {| buf := buf (P s f); wshut := true; sent := sent (P s f); rcvd := rcvd (P s f); eof := eof (P s f) |} ->
-  avail s1 y -> avail s y \/ afd y = peer f.
+  Kn s1 = Kn s -> avail s1 y -> avail s y \/ afd y = peer f.
 Proof.
-  intros HP Hav. unfold IoModel.avail in *. rewrite HP in Hav.
-  destruct (Nat.eq_dec (pipe_of peer (akind y) (afd y)) f) as [E|N]; [|rewrite upd_neq in Hav by exact N; left; exact Hav].
-  rewrite E in *. rewrite upd_eq in Hav. cbn in Hav.
-  destruct (akind y); [right; unfold pipe_of in E; rewrite <- E; symmetry; apply peer_inv | left; exact Hav].
+  intros HP HK Hav. unfold IoModel.avail in *. rewrite HP, HK in Hav.
+  destruct (akind y) eqn:Ky; [| |left; exact Hav|left; exact Hav].
+  all: destruct (Nat.eq_dec (pipe_of peer (akind y) (afd y)) f) as [E|N]; rewrite Ky in *;
+    [|rewrite upd_neq in Hav by exact N; left; exact Hav].
+  all: rewrite E in *; rewrite upd_eq in Hav; cbn in Hav.
+  - right; unfold pipe_of in E; rewrite <- E; symmetry; apply peer_inv.
+  - left; exact Hav.
+Qed.
+
+(* K6: the outcome of a connection attempt comes with an event for the connecting descriptor *)
+Lemma avail_kst s s1 f c y : P s1 = P s -> Kn s1 = upd (Kn s) f (k_st (Kn s f) c) -> avail s1 y -> avail s y \/ afd y = f.
+Proof.
+  intros HP HK Hav. destruct (Nat.eq_dec (afd y) f) as [E|N]; [right; exact E | left].
+  eapply avail_kupd; eauto.
+Qed.
+(* K5: a connection entering a backlog comes with an event for the listener if the backlog was empty *)
+Lemma avail_deliver s s1 f y :
+  P s1 = P s -> Kn s1 = enqueue (upd (Kn s) f (k_deliv (Kn s f))) (ktgt (Kn s f)) f -> avail s1 y ->
+  avail s y \/ q_edge (upd (Kn s) f (k_deliv (Kn s f))) (ktgt (Kn s f)) = Some (afd y).
+Proof.
+  intros HP HK Hav. unfold IoModel.avail in *. rewrite HP, HK in Hav.
+  assert (Q : forall g, kq (upd (Kn s) f (k_deliv (Kn s f)) g) = kq (Kn s g)).
+  { intros g. destruct (Nat.eq_dec g f) as [->|N]; [rewrite upd_eq | rewrite upd_neq by exact N]; reflexivity. }
+  assert (S : forall g, kst (upd (Kn s) f (k_deliv (Kn s f)) g) = kst (Kn s g)).
+  { intros g. destruct (Nat.eq_dec g f) as [->|N]; [rewrite upd_eq | rewrite upd_neq by exact N]; reflexivity. }
+  destruct (akind y); [left; exact Hav | left; exact Hav | |].
+  - apply kq_enqueue in Hav. rewrite Q in Hav. exact Hav.
+  - rewrite kst_enqueue, S in Hav. left; exact Hav.
 Qed.
 
 (* ---- consequences of the invariant in the form the preservation proofs use them ------------------------------- *)
